@@ -35,14 +35,17 @@ theorem senderError_is_own_drop (ops : List Op) (p : Nat) (c : Call)
   simpa [hs] using this
 
 /-- (every RPC completes) In every reachable state a caller is still waiting ONLY while its
-port is alive somewhere — queued at or held by an actor that is still alive, or moved to a
-detached task — and (if it has a timeout) its deadline has not passed. Contrapositive: once
-the callee has stopped, been killed, failed or drained (its mailbox and everything it held is
-dropped), or the port was answered or dropped, or the deadline passed, the caller has its
-answer: `Success`, `SenderError` or `Timeout`. -/
+port is alive somewhere — queued at or held by an actor that is still alive, or inside the
+last state of a gracefully stopped callee whose termination event a LIVE supervisor still
+holds (queued or stashed), or moved to a detached task — and (if it has a timeout) its
+deadline has not passed. Contrapositive: once the callee has stopped, been killed, failed or
+drained (its mailbox and everything it held is dropped) and nobody keeps its last state, or
+the supervisor dropped the event or died, or the port was answered or dropped, or the deadline
+passed, the caller has its answer: `Success`, `SenderError` or `Timeout`. -/
 theorem waiting_only_while_port_alive (ops : List Op) (p : Nat) (c : Call)
     (hc : (run ops).calls[p]? = some c) (hw : c.res = none) :
     ((∃ a x, (c.loc = .mailbox a ∨ c.loc = .actor a) ∧ (run ops).actors[a]? = some x ∧ x.alive = true)
+      ∨ (∃ (a u : Nat) (y : Sup), c.loc = .event a ∧ (run ops).sups[u]? = some y ∧ y.alive = true ∧ (a ∈ y.inbox ∨ a ∈ y.stash))
       ∨ c.loc = .detached) ∧
     (∀ d, c.deadline = some d → (run ops).now < d) := by
   have hok := (inv_run ops).okc p c hc
@@ -63,24 +66,101 @@ theorem waiting_only_while_port_alive (ops : List Op) (p : Nat) (c : Call)
       cases hA : (run ops).actors[a]? with
       | none => simp [hA] at hloc
       | some x => exact Or.inl ⟨a, x, Or.inr rfl, hA, by simpa [hA] using hloc⟩
-    | detached => exact Or.inr rfl
+    | event a =>
+      simp only [hl] at hloc
+      obtain ⟨u, y, hy, ha, hm⟩ := supHolds_iff.mp hloc
+      exact Or.inr (Or.inl ⟨a, u, y, rfl, hy, ha, hm⟩)
+    | detached => exact Or.inr (Or.inr rfl)
     | replied v => simp [hl] at h1
     | dropped => simp [hl] at h1
   · intro d hd
     simpa [hd] using h2
 
 /-- (callee exit completes the call) The actor that owns a waiting call's port is the CALLEE
-itself: a caller still waits only if its callee is alive or a detached task holds the port.
-So when the callee stops, is killed, fails or finishes draining, every caller whose port it
-still owned has its answer (`SenderError`) — nobody hangs on a dead callee. -/
+itself: a caller still waits only if its callee is alive, or a detached task holds the port,
+or the port sits in the CALLEE's own last state inside a termination event that a live
+supervisor still holds. So when the callee stops, is killed, fails or finishes draining, every
+caller whose port it still owned has its answer (`SenderError`) unless a supervisor keeps the
+callee's state — nobody hangs on a dead callee whose state is gone. -/
 theorem waits_only_for_live_callee (ops : List Op) (p : Nat) (c : Call)
     (hc : (run ops).calls[p]? = some c) (hw : c.res = none) :
-    (∃ x, (run ops).actors[c.callee]? = some x ∧ x.alive = true) ∨ c.loc = .detached := by
-  rcases (waiting_only_while_port_alive ops p c hc hw).1 with ⟨a, x, hl, hx, ha⟩ | hd
+    (∃ x, (run ops).actors[c.callee]? = some x ∧ x.alive = true) ∨ c.loc = .detached ∨
+    (c.loc = .event c.callee ∧ ∃ (u : Nat) (y : Sup), (run ops).sups[u]? = some y ∧ y.alive = true ∧
+      (c.callee ∈ y.inbox ∨ c.callee ∈ y.stash)) := by
+  rcases (waiting_only_while_port_alive ops p c hc hw).1 with ⟨a, x, hl, hx, ha⟩ | ⟨a, u, y, hl, hy, hal, hm⟩ | hd
   · left
-    have := own_run ops p c hc a hl
+    have := own_run ops p c hc a (hl.elim Or.inl (fun h => Or.inr (Or.inl h)))
     rw [this]; exact ⟨x, hx, ha⟩
-  · exact Or.inr hd
+  · right; right
+    have := own_run ops p c hc a (Or.inr (Or.inr hl))
+    rw [this]; exact ⟨hl, u, y, hy, hal, hm⟩
+  · exact Or.inr (Or.inl hd)
+
+/-- (a kept state keeps its ports alive — and only a LIVE supervisor can keep it) A port
+inside a termination event is held, queued or stashed, by a supervisor that is alive; and
+while it is there its caller has NOT been failed: the caller is still waiting, or timed out
+(or its `multi_call` bailed out) — never `SenderError`, never `Success`, before the event is
+dropped or the supervisor answers through the port. -/
+theorem event_port_held_and_not_failed (ops : List Op) (p : Nat) (c : Call) (a : Nat)
+    (hc : (run ops).calls[p]? = some c) (hl : c.loc = .event a) :
+    (∃ (u : Nat) (y : Sup), (run ops).sups[u]? = some y ∧ y.alive = true ∧ (a ∈ y.inbox ∨ a ∈ y.stash)) ∧
+    (c.res = none ∨ c.res = some .timeout ∨ c.res = some .abandoned) ∧ c.callee = a := by
+  have hloc := (inv_run ops).loc p c hc
+  have hok := (inv_run ops).okc p c hc
+  unfold locOk at hloc
+  simp only [hl] at hloc
+  refine ⟨supHolds_iff.mp hloc, ?_, own_run ops p c hc a (Or.inr (Or.inr hl))⟩
+  unfold callOk at hok
+  cases hr : c.res with
+  | none => exact Or.inl rfl
+  | some r => cases r <;> simp_all
+
+/-- (the caller completes exactly when the event is dropped) As soon as a port has been
+dropped — by a handler, with the callee's mailbox or state, or with the termination event that
+carried it (supervisor dropped the event, dropped it from its stash, or died) — its caller is
+complete: with `SenderError`, unless it had already timed out at or after its deadline (or
+the send itself failed / its `multi_call` bailed out). Together with
+`event_port_held_and_not_failed` and `senderError_is_own_drop`: `SenderError` is reported
+exactly from the drop of the event on, never while a supervisor still holds the state. -/
+theorem dropped_port_completes (ops : List Op) (p : Nat) (c : Call)
+    (hc : (run ops).calls[p]? = some c) (hl : c.loc = .dropped) :
+    c.res = some .senderError ∨ c.res = some .sendErr ∨ c.res = some .abandoned ∨
+    (c.res = some .timeout ∧ ∃ d, c.deadline = some d ∧ d ≤ (run ops).now) := by
+  have hok := (inv_run ops).okc p c hc
+  unfold callOk at hok
+  cases hr : c.res with
+  | none => simp [hr, hl] at hok
+  | some r =>
+    cases r with
+    | success v => simp [hr, hl] at hok
+    | senderError => exact Or.inl rfl
+    | sendErr => exact Or.inr (Or.inl rfl)
+    | abandoned => exact Or.inr (Or.inr (Or.inl rfl))
+    | timeout =>
+      refine Or.inr (Or.inr (Or.inr ⟨rfl, ?_⟩))
+      simp only [hr] at hok
+      cases hd : c.deadline with
+      | none => simp [hd] at hok
+      | some d => exact ⟨d, rfl, by simpa [hd] using hok⟩
+
+/-- (what dropping an event does) In ANY state: a port inside the event of actor `a` that no
+live supervisor holds any more is dropped by the sweep that follows every supervisor-side
+removal (`suphandle … drop`, `supdrop`, `supexit`) … -/
+theorem orphaned_event_port_is_dropped (s : S) (p : Nat) (c : Call) (a : Nat)
+    (hc : s.calls[p]? = some c) (hl : c.loc = .event a) (hno : supHolds s.sups a = false) :
+    (sweep s).calls[p]? = some { c with loc := .dropped } :=
+  sweep_orphan s p c a hc hl hno
+
+/-- … and the `resolve` that ends the same step completes a caller still waiting on it with `SenderError`. -/
+theorem dropped_waiting_call_gets_senderError (now : Nat) (c : Call)
+    (hw : c.res = none) (hl : c.loc = .dropped) : (resolveCall now c).res = some .senderError := by
+  unfold resolveCall; simp [hw, hl]
+
+/-- A late reply through a port taken out of a stashed state completes the caller with
+`Success` of that very value (`resolve` on a waiting call whose port was answered). -/
+theorem replied_waiting_call_gets_success (now : Nat) (c : Call) (v : Nat)
+    (hw : c.res = none) (hl : c.loc = .replied v) : (resolveCall now c).res = some (.success v) := by
+  unfold resolveCall; simp [hw, hl]
 
 /-- (timeout) With a timeout the caller has an answer no later than the deadline. -/
 theorem answered_by_deadline (ops : List Op) (p : Nat) (c : Call) (d : Nat)
@@ -110,6 +190,16 @@ theorem dead_actor_owns_no_port (ops : List Op) (p : Nat) (c : Call) (a : Nat) (
   have hloc := (inv_run ops).loc p c hc
   unfold locOk at hloc
   constructor <;> intro hl <;> simp [hl, hx, hdead] at hloc
+
+/-- (nothing survives the supervisor) No port is inside an event that only dead supervisors
+hold: when a supervisor dies, the events queued at it and the events it stashed are dropped
+with everything in them. -/
+theorem dead_supervisor_holds_no_event (ops : List Op) (p : Nat) (c : Call) (a : Nat)
+    (hc : (run ops).calls[p]? = some c) (hl : c.loc = .event a)
+    (hdead : ∀ (u : Nat) (y : Sup), (run ops).sups[u]? = some y → (a ∈ y.inbox ∨ a ∈ y.stash) → y.alive = false) : False := by
+  obtain ⟨⟨u, y, hy, hal, hm⟩, _⟩ := event_port_held_and_not_failed ops p c a hc hl
+  have := hdead u y hy hm
+  rw [hal] at this; cases this
 
 /-- (ports are linear) A port queued in a mailbox is queued exactly once, at exactly one actor. -/
 theorem port_queued_once (ops : List Op) (a : Nat) (x : Actor) (p : Nat)
@@ -143,6 +233,26 @@ example : ((run exampleOps).calls.map (·.res)) =
     [some (.success 7), some (.success 42), some .senderError, some .timeout] := by decide
 example : ok (run exampleOps) = true := by decide
 
+/-- supervised callees: #0 keeps two ports in its state and stops gracefully — the callers keep
+waiting while the supervisor has the event queued, then stashed; the supervisor answers one
+through the stashed state, then drops the event (the other gets SenderError). #1 keeps a port,
+is stopped and its event dropped unhandled-then-dropped; #2 keeps a port and is KILLED (no
+state in the event: SenderError at once); #3's event dies with the supervisor. -/
+def exampleSup : List Op :=
+  [.spawnSup, .spawnl 0, .spawnl 0, .spawnl 0, .spawnl 0,
+   .call 0 none, .call 0 none, .call 1 none, .call 2 none, .call 3 none,
+   .handle 0 .keep, .handle 0 .keep, .handle 1 .keep, .handle 2 .keep, .handle 3 .keep,
+   .stop 0 .drop, .stop 1 .drop, .exit 2]
+
+example : ((run exampleSup).calls.map (·.res)) = [none, none, none, some .senderError, none] := by decide +kernel
+example : ((run (exampleSup ++ [.suphandle 0 true, .later 0 (.reply 5)])).calls.map (·.res)) =
+    [some (.success 5), none, none, some .senderError, none] := by decide +kernel
+example : ((run (exampleSup ++ [.suphandle 0 true, .later 0 (.reply 5), .supdrop 0 0, .suphandle 0 false])).calls.map (·.res)) =
+    [some (.success 5), some .senderError, some .senderError, some .senderError, none] := by decide +kernel
+example : ((run (exampleSup ++ [.suphandle 0 true, .stop 3 .drop, .supexit 0])).calls.map (·.res)) =
+    [some .senderError, some .senderError, some .senderError, some .senderError, some .senderError] := by decide +kernel
+example : ok (run (exampleSup ++ [.suphandle 0 true, .later 0 (.reply 5), .supdrop 0 0])) = true := by decide +kernel
+
 end C09
 
 #print axioms C09.ok_reachable
@@ -150,6 +260,12 @@ end C09
 #print axioms C09.senderError_is_own_drop
 #print axioms C09.waiting_only_while_port_alive
 #print axioms C09.waits_only_for_live_callee
+#print axioms C09.event_port_held_and_not_failed
+#print axioms C09.dropped_port_completes
+#print axioms C09.orphaned_event_port_is_dropped
+#print axioms C09.dropped_waiting_call_gets_senderError
+#print axioms C09.replied_waiting_call_gets_success
+#print axioms C09.dead_supervisor_holds_no_event
 #print axioms C09.answered_by_deadline
 #print axioms C09.timeout_not_early
 #print axioms C09.dead_actor_owns_no_port
